@@ -80,6 +80,7 @@ type Exec struct {
 	boundObjs []types.Object
 	assuming int
 	loopEntry *State
+	mute int // >0: checks are assumed, not recorded (auxiliary executions)
 }
 
 func (ex *Exec) frame() *Frame { return ex.frames[len(ex.frames)-1] }
@@ -113,6 +114,10 @@ func (ex *Exec) note(a string) {
 // check records an obligation: under the current path condition, goal holds. Afterwards the goal is assumed.
 func (ex *Exec) check(st *State, goal *Term, kind string, n ast.Node, site string) {
 	if ex.spec > 0 || st.dead {
+		return
+	}
+	if ex.mute > 0 && kind != "variant-first" {
+		st.assume(goal)
 		return
 	}
 	if site == "" && n != nil {
@@ -662,6 +667,43 @@ func (ex *Exec) runLoop(n ast.Node, label string, st *State, w *writes, cond fun
 			}
 		}
 	}
+	// 1b. the variant decreases in the very first iteration (a refutation of this obligation is a real input)
+	if dec != nil && ex.mute == 0 {
+		ex.mute++
+		e0 := st.clone()
+		var c0 *Term
+		if cond != nil {
+			c0 = cond(e0)
+		}
+		if c0 != nil {
+			e0.assume(c0)
+		}
+		if !e0.dead {
+			lc0 := &loopCtx{label: label}
+			f.loops = append(f.loops, lc0)
+			f.loopOrd = append(f.loopOrd, 0)
+			nret := len(f.returns)
+			v00 := ex.evalClauseVal(dec, e0, f.oldSt).scalar()
+			body(e0)
+			for _, e := range append([]*State{e0}, lc0.continues...) {
+				if e == nil || e.dead {
+					continue
+				}
+				if post != nil {
+					post(e)
+				}
+				if e.dead {
+					continue
+				}
+				v1 := ex.evalClauseVal(dec, e, f.oldSt).scalar()
+				ex.check(e, mkAnd(mkCmp("lt", v1, v00), mkCmp("le", mkInt(v00.Sort, 0), v00)), "variant-first", n, site+":decreases-first-iteration")
+			}
+			f.returns = f.returns[:nret]
+			f.loopOrd = f.loopOrd[:len(f.loopOrd)-1]
+			f.loops = f.loops[:len(f.loops)-1]
+		}
+		ex.mute--
+	}
 	// 2. havoc, assume invariants: arbitrary iteration
 	ex.havocWrites(w, st, false)
 	ex.assuming++
@@ -1022,9 +1064,6 @@ func (ex *Exec) scanLHS(e ast.Expr, info *types.Info, w *writes) {
 				ex.scanLHS(e.X, info, w)
 			} else {
 				ex.scanPtrTargets(e.X, info, w)
-			}
-			if sel.Indirect() {
-				ex.scanLHS(e.X, info, w)
 			}
 		} else {
 			// qualified global
